@@ -1,4 +1,4 @@
-"""Run the checks against one seeded change: python -m mc.seedtest <seeded dir> [props...] [--tier quick].
+"""Run the checks against one seeded change: python -m mc.seedtest <seeded dir> [props...] [--tier quick] [--base <commit>] [--no-tests].
 
 Creates a scratch worktree of /repo's HEAD outside /repo and /verif, applies the patch, runs the
 repository's test suite and the demonstration there, runs the given checks with VERIF_REPO pointing
@@ -26,15 +26,20 @@ def main(argv):
         i = argv.index("--tier")
         tier = argv[i + 1]
         argv = argv[:i] + argv[i + 2:]
+    base = "HEAD"
+    if "--base" in argv:   # a seed written against an older commit (its target code was replaced by a later fix)
+        i = argv.index("--base")
+        base = argv[i + 1]
+        argv = argv[:i] + argv[i + 2:]
     skip_tests = "--no-tests" in argv
     argv = [a for a in argv if a != "--no-tests"]
     sdir = os.path.abspath(argv[0])
     props = argv[1:] or [os.path.basename(sdir).split("-")[0]]
     scratch = tempfile.mkdtemp(prefix="pest_seed_", dir="/tmp")
     os.rmdir(scratch)
-    res = {"seed": os.path.basename(sdir), "props": props, "tier": tier}
+    res = {"seed": os.path.basename(sdir), "props": props, "tier": tier, "base": base}
     try:
-        rc, out = sh(f"git -C /repo worktree add -q --detach {scratch} HEAD")
+        rc, out = sh(f"git -C /repo worktree add -q --detach {scratch} {base}")
         assert rc == 0, out
         env = dict(os.environ, PYTHONPATH=f"{scratch}/src", PYTHONDONTWRITEBYTECODE="1")
         rc, out = sh(f"/venv/bin/python {sdir}/demo.py", cwd=scratch, env=env)
@@ -60,9 +65,10 @@ def main(argv):
                 if l.startswith("VIOLATION") and i + 1 < len(out.splitlines()):
                     first = out.splitlines()[i + 1].strip()[:500]
                     break
+            details = [out.splitlines()[i + 1].strip()[:300] for i, l in enumerate(out.splitlines()) if l.startswith("VIOLATION") and i + 1 < len(out.splitlines())]
             wall = re.search(r"wall=([\d.]+)s", out)
             res["checks"][prop] = {"exit": rc, "violation_lines": len(viol), "first": first, "wall_s": float(wall.group(1)) if wall else None,
-                                   "harness_error": next((l for l in out.splitlines() if l.startswith("HARNESS-ERROR")), None)}
+                                   "details": details[1:] if base != "HEAD" else [], "harness_error": next((l for l in out.splitlines() if l.startswith("HARNESS-ERROR")), None)}
     finally:
         sh(f"git -C /repo worktree remove --force {scratch}")
         sh(f"rm -rf {scratch}")
